@@ -180,4 +180,109 @@ theorem pLabels_marshalLabels (ls : Labels) (rest : Bytes) :
     simp only [List.length_cons]
     exact this
 
+def TsOK (t : Int) : Prop := MinI64 < t ∧ t ≤ MaxI64
+
+def ValOK (pf : Bytes → Option FVal) : Val → Prop
+  | .f x => FloatTextOK pf x
+  | .h x => HistOK pf x
+
+def isHist : Val → Bool
+  | .f _ => false
+  | .h _ => true
+
+theorem pPoint_marshalPoint (pf : Bytes → Option FVal) (t : Int) (v : Val) (rest : Bytes)
+    (ht : TsOK t) (hv : ValOK pf v) :
+    pPoint pf (isHist v) (marshalPoint t v ++ rest) = some ((.exact t, origVal v), rest) := by
+  unfold pPoint marshalPoint
+  have l91 := pLit_append [91]
+  have l44 := pLit_append [44]
+  have l93 := pLit_append [93]
+  simp only [List.cons_append, List.nil_append] at l91 l44 l93
+  simp only [List.append_assoc, List.cons_append, List.nil_append, l91, Option.bind_some, bind, pure]
+  rw [pTs_marshalTimestamp t ht.1 ht.2 _ (by rfl)]
+  simp only [Option.bind_some, l44]
+  cases v with
+  | f x =>
+    simp only [isHist, ValOK] at hv ⊢
+    simp [pFloat_marshalFloat pf x _ hv, l93, origVal]
+  | h x =>
+    simp only [isHist, ValOK] at hv ⊢
+    simp [pHist_marshalHistogram pf x _ hv, l93, origVal]
+
+def origSample (s : Sample) : DSample := ⟨s.metric, .exact s.t, origVal s.v⟩
+
+def SampleOK (pf : Bytes → Option FVal) (s : Sample) : Prop := TsOK s.t ∧ ValOK pf s.v
+
+theorem pSample_marshalSample (pf : Bytes → Option FVal) (s : Sample) (rest : Bytes) (h : SampleOK pf s) :
+    pSample pf (marshalSample s ++ rest) = some (origSample s, rest) := by
+  unfold pSample marshalSample
+  have l44 := pLit_append [44]
+  have l125 := pLit_append [125]
+  simp only [List.cons_append, List.nil_append] at l44 l125
+  simp only [List.append_assoc, List.cons_append, List.nil_append, pLit_append, pLabels_marshalLabels, l44,
+    Option.bind_some, bind, pure]
+  have hp := pPoint_marshalPoint pf s.t s.v (125 :: rest) h.1 h.2
+  cases hv : s.v with
+  | f x =>
+    rw [hv] at hp
+    simp only [isHist] at hp
+    simp only [pLit_append, hp, Option.bind_some, l125, origSample, hv]
+  | h x =>
+    rw [hv] at hp
+    simp only [isHist] at hp
+    have hno : ∀ r, pLit (kw "\"value\":") (kw "\"histogram\":" ++ r) = none := by
+      intro r; simp [pLit, kw]
+    simp only [hno, pLit_append, hp, Option.bind_some, l125, origSample, hv]
+
+theorem marshalSample_ne_nil (s : Sample) : marshalSample s ≠ [] := by
+  unfold marshalSample; simp [kw]
+
+theorem pArray_sepBy {α β : Type} (p : P α) (enc : β → Bytes) (dec : β → α) (xs : List β)
+    (hne : ∀ x ∈ xs, ∃ b tl, enc x = b :: tl ∧ b ≠ 93)
+    (hp : ∀ x ∈ xs, ∀ rest, p (enc x ++ rest) = some (dec x, rest)) (rest : Bytes) :
+    pArray p ([91] ++ sepBy [44] (xs.map enc) ++ [93] ++ rest) = some (xs.map dec, rest) := by
+  unfold pArray
+  have l91 := pLit_append [91]
+  simp only [List.cons_append, List.nil_append] at l91
+  simp only [List.append_assoc, List.cons_append, List.nil_append, l91, Option.bind_some, bind, pure]
+  cases xs with
+  | nil => simp [sepBy]
+  | cons x xs =>
+    obtain ⟨b, tl, hb, hb93⟩ := hne x (by simp)
+    have hhead : ∃ tl', sepBy [44] ((x :: xs).map enc) ++ 93 :: rest = b :: tl' := by
+      cases xs with
+      | nil => simp [sepBy, hb]
+      | cons _ _ => simp [sepBy, hb]
+    obtain ⟨tl', htl⟩ := hhead
+    have hlen : (x :: xs).length ≤ (sepBy [44] ((x :: xs).map enc) ++ 93 :: rest).length := by
+      have := length_sepBy_ge enc [44] (x :: xs) (fun y hy => by
+        obtain ⟨b, tl, hb, _⟩ := hne y hy; rw [hb]; simp)
+      simp only [List.length_append] at this ⊢; omega
+    have := pSepBy_sepBy p enc dec 44 93 (by decide) (x :: xs) (by simp) hp rest _ hlen
+    rw [htl] at this ⊢
+    split
+    · rename_i heq; simp at heq; exact absurd heq.1 hb93
+    · exact this
+
+theorem pVector_marshalVector (pf : Bytes → Option FVal) (v : List Sample) (rest : Bytes)
+    (h : ∀ s ∈ v, SampleOK pf s) :
+    pVector pf (marshalVector v ++ rest) = some (v.map origSample, rest) := by
+  unfold pVector marshalVector
+  exact pArray_sepBy (pSample pf) marshalSample origSample v
+    (fun s _ => ⟨123, _, by unfold marshalSample; simp [kw]; rfl, by decide⟩)
+    (fun s hs r => pSample_marshalSample pf s r (h s hs)) rest
+
+theorem pEnvelope_envelope {α : Type} (rt : String) (p : P α) (body : Bytes) (a : α)
+    (hp : ∀ rest, p (body ++ rest) = some (a, rest)) :
+    pEnvelope rt p (envelope rt body) = some a := by
+  have e : envelope rt body =
+      (kw "{\"status\":\"success\",\"data\":{\"resultType\":\"" ++ kw rt ++ kw "\",\"result\":") ++ (body ++ kw "}}") := by
+    simp [envelope]
+  rw [e]
+  unfold pEnvelope
+  have := pLit_append (kw "}}") []
+  simp only [List.append_nil] at this
+  simp only [pLit_append, Option.bind_some, bind, pure, hp, this]
+  simp
+
 end Prom.Api.Json
